@@ -10,7 +10,7 @@ EXTENDS DecodePatch, JsonEnc, JsonText, Json, TLC
 CONSTANTS EmitOn, Pairs      \* Pairs >= 1: also two-element documents [valid, mutated] and [mutated, valid]; 2: double mutations
 
 N1   == Num(<<49>>)      \* 1
-NBig == Num(<<49,50,51,52,53,54,55,56,57,48,49,50,51,52,53,54,55,56,57,48,49,50,51>>)      \* 12345678901234567890123
+NBig == Num(<<49,50,51,52,53,54,55,56,57,48,49,50,51,52,53,54,55,56,57,48,49,50,51,52,53,54,55,56,57,48,49,50,51,52,53,54,55,56,57,48,49,50,51,52,53,54,55,56,57,48,49,50,51,52,53,54,55,56,57,48,49,50,51,52,53,54,55,56,57,48>>)      \* 1234567890123456789012345678901234567890123456789012345678901234567890 (70 digits: longer than any scratch buffer)
 SA   == Str(<<47,97>>)            \* "/a"
 SB   == Str(<<47,98>>)            \* "/b"
 SX   == Str(<<120>>)
